@@ -19,12 +19,22 @@ Enc(c) ==
   ELSE IF c < 65536 THEN <<224 + (c \div 4096), 128 + ((c \div 64) % 64), 128 + (c % 64)>>
   ELSE <<240 + (c \div 262144), 128 + ((c \div 4096) % 64), 128 + ((c \div 64) % 64), 128 + (c % 64)>>
 
-RECURSIVE EncSeq(_)
-EncSeq(cs) == IF cs = <<>> THEN <<>> ELSE Enc(Head(cs)) \o EncSeq(Tail(cs))
+\* concatenation of f(lo) .. f(hi) by divide and conquer (logarithmic recursion depth, n log n copying)
+RECURSIVE CatRange(_, _, _)
+CatRange(f(_), lo, hi) ==
+  IF lo > hi THEN <<>>
+  ELSE IF lo = hi THEN f(lo)
+  ELSE LET mid == (lo + hi) \div 2 IN CatRange(f, lo, mid) \o CatRange(f, mid + 1, hi)
+RECURSIVE SumRange(_, _, _)
+SumRange(f(_), lo, hi) ==
+  IF lo > hi THEN 0
+  ELSE IF lo = hi THEN f(lo)
+  ELSE LET mid == (lo + hi) \div 2 IN SumRange(f, lo, mid) + SumRange(f, mid + 1, hi)
+
+EncSeq(cs) == CatRange(LAMBDA i : Enc(cs[i]), 1, Len(cs))
 
 \* byte length of a sequence of code points (nfa_builder.rs:81-85 for chars)
-RECURSIVE ByteLen(_)
-ByteLen(cs) == IF cs = <<>> THEN 0 ELSE Width(Head(cs)) + ByteLen(Tail(cs))
+ByteLen(cs) == SumRange(LAMBDA i : Width(cs[i]), 1, Len(cs))
 
 \* one `next()` of the decoder on byte sequence b having already pulled i bytes.
 \* Result: [end, cp, oob, bad]; end = number of bytes pulled afterwards.
